@@ -74,7 +74,7 @@ $OMEGA 0.02
 $SIGMA 0.01
 $ESTIMATION METHOD=1 INTERACTION
 """
-ALL_ACTS = ["D:FIXVAR1", "X:ADDIIV", "S:FO", "S:PER", "S:TR", "S:LAG", "S:ZOE", "S:MM", "X:COVLIN", "X:COVCAT", "X:COVPW", "X:IOV", "X:BOXCOX",
+ALL_ACTS = ["S:IVORAL", "D:FIXVAR1", "X:ADDIIV", "S:FO", "S:PER", "S:TR", "S:LAG", "S:ZOE", "S:MM", "X:COVLIN", "X:COVCAT", "X:COVPW", "X:IOV", "X:BOXCOX",
             "X:COMB", "X:IIVRUV", "X:POWER", "X:TV", "D:FIXTH", "D:ZEROOM", "P:MU", "P:DECL", "P:CLEAN", "P:SIMP", "P:GREEK",
             "P:RENAME", "P:SOLVE", "P:GENERIC", "P:NONMEM", "P:UNLOAD", "P:LOAD", "P:UNUSED", "P:JOINT", "P:SPLIT", "P:FIXED",
             "P:NONRANDOM", "O:OBS", "O:IPRED", "O:PRED", "O:ETAGRAD", "O:EPSGRAD", "O:EVAL"]
@@ -269,6 +269,14 @@ OCC = {"pheno": "FA1", "mox2": "VISI"}
 def apply_other(name, tok, m):
     import pharmpy.modeling as pm
 
+    if tok == "S:IVORAL":
+        # an IV + oral system: a second bolus (admid 2) straight into the central compartment
+        from pharmpy.model import Bolus, CompartmentalSystem, CompartmentalSystemBuilder
+
+        cs = m.statements.ode_system
+        cb = CompartmentalSystemBuilder(cs)
+        cb.set_dose(cs.central_compartment, Bolus.create("AMT", admid=2))
+        return m.replace(statements=m.statements.before_odes + CompartmentalSystem(cb) + m.statements.after_odes)
     if tok == "S:FO":
         return pm.set_first_order_absorption(m)
     if tok == "S:PER":
@@ -564,18 +572,26 @@ def solve_event(m1, cx):
             except (Undef, OverflowError, ZeroDivisionError):
                 rv = None
             pairs.append([qj(lv), qj(rv)])
-        # initial condition: the dose sits in its compartment at t = 0
-        ics = pm.get_initial_conditions(m1, dosing=True)
+        # initial conditions, read off the compartmental system itself (not through pharmpy's own helper): at t = 0 EVERY
+        # compartment holds the bolus doses that enter it (0 without dose); compartments with a lag time are left out
+        from pharmpy.model import Bolus
+
         env0 = {**full, "t": ZERO}
-        for fn, val in ics.items():
-            name = str(qeval._sp(fn)).replace("(0)", "(t)")
-            if name in sol:
-                try:
-                    a = Evaluator(dict(env0), lambda nm_: name_value(nm_, salt)).ev(sol[name])
-                    b = Evaluator(dict(env0), lambda nm_: name_value(nm_, salt)).ev(val)
-                    pairs.append([qj(a), qj(b)])
-                except (Undef, OverflowError, ZeroDivisionError):
-                    pass
+        for cname in cs.compartment_names:
+            comp = cs.find_compartment(cname)
+            key = str(qeval._sp(comp.amount))
+            if key not in sol or qeval._sp(comp.lag_time) != 0:
+                continue
+            if any(not isinstance(d, Bolus) for d in comp.doses):
+                continue
+            try:
+                a = Evaluator(dict(env0), lambda nm_: name_value(nm_, salt)).ev(sol[key])
+                b = ZERO
+                for d in comp.doses:
+                    b = b + Evaluator(dict(env0), lambda nm_: name_value(nm_, salt)).ev(d.amount)
+                pairs.append([qj(a), qj(b)])
+            except (Undef, OverflowError, ZeroDivisionError):
+                pass
     y = yname(m1)
     req = [f"{k}|{y}" for k in range(2) if any(n == f"{k}|{y}" for n, _ in before)]
     return m2, {"before": before, "after": after, "ren": [], "req": req, "pairs": pairs}
@@ -710,6 +726,32 @@ def observe(tok, m1, cx):
                     aux["failed"].append({"fn": "evaluate_epsilon_gradient", "row": r, "eps": e, "missing_label": label})
                     continue
                 cmp("evaluate_epsilon_gradient", r, {"eps": e}, qeval.float_eval(sympy.diff(fy, sympy.Symbol(e)), envf), float(sg[label].iloc[r]))
+        # parameters=: values different from the initial estimates, as a map keyed by str, by Expr, by sympy Symbol and
+        # as a pd.Series (ParameterMap); every evaluator must evaluate at THOSE values
+        from pharmpy.basic import Expr
+
+        pvals = {n: (v * 1.5 if v != 0 else 0.1) for n, v in inits.items()}
+        forms = {"str": dict(pvals), "Expr": {Expr.symbol(n): v for n, v in pvals.items()},
+                 "Symbol": {sympy.Symbol(n): v for n, v in pvals.items()}, "Series": pd.Series(pvals)}
+        for fname, pmap in forms.items():
+            pr = pm.evaluate_population_prediction(m1, parameters=pmap)
+            ip3 = pm.evaluate_individual_prediction(m1, etas=frame, parameters=pmap)
+            eg3 = pm.evaluate_eta_gradient(m1, etas=frame, parameters=pmap)
+            sg3 = pm.evaluate_epsilon_gradient(m1, etas=frame, parameters=pmap)
+            for r in rows[:2]:
+                row = {c: float(df.iloc[r][c]) for c in df.columns if isinstance(df.iloc[r][c], (int, float)) or hasattr(df.iloc[r][c], "__float__")}
+                envf = {**pvals, **row, **{e: 0.0 for e in etas + eps}}
+                cmp("evaluate_population_prediction(parameters)", r, {"keys": fname}, P.run_float(m1, envf).get(y), float(pr.iloc[r]))
+                envf = {**envf, **{e: float(frame.loc[df.iloc[r][idc], e]) for e in etas}}
+                cmp("evaluate_individual_prediction(parameters)", r, {"keys": fname}, P.run_float(m1, envf).get(y), float(ip3.iloc[r]))
+                for e in etas:
+                    if f"dF/d{e}" in eg3.columns:
+                        cmp("evaluate_eta_gradient(parameters)", r, {"keys": fname, "eta": e},
+                            qeval.float_eval(sympy.diff(fy0, sympy.Symbol(e)), envf), float(eg3[f"dF/d{e}"].iloc[r]))
+                for e in eps:
+                    if f"dY/d{e}" in sg3.columns:
+                        cmp("evaluate_epsilon_gradient(parameters)", r, {"keys": fname, "eps": e},
+                            qeval.float_eval(sympy.diff(fy, sympy.Symbol(e)), envf), float(sg3[f"dY/d{e}"].iloc[r]))
     return {"before": [], "after": [], "ren": [], "req": [], "pairs": pairs}, aux
 
 
